@@ -35,14 +35,14 @@ def bothPass : List Label := [.call, .i0_cold, .call, .i0_cold]
     so it does not wait for `w`), finds `len > 0`, upgrades — `w` is free because A itself re-created it — and passes the
     re-test: A re-allocates the tables while B reads them -/
 def f9Trace : List Label :=
-  bothPass ++ initSeq ++ brFirst ++ upgradeLastFirst ++ [.c1_pass 8, .store 8, .build 8] ++ cwLast ++
+  bothPass ++ initSeq ++ brFirst ++ upgradeLastFirst ++ [.c1_pass 8, .store 8 true, .build 8] ++ cwLast ++
   [.call, .i0_warm] ++ brFirst ++ [.c0_ok] ++
   initSeq ++ brMore ++ [.c0_grow, .u1, .u2_more, .u4, .w1, .w2_first, .w3, .w4, .w5, .c1_pass 4]
 
 /-- F9, two writers: both initialise; B becomes writer and re-allocates; A's late `ccrw2_init` frees `w` and `r`; A becomes a
     second writer -/
 def twoWritersTrace : List Label :=
-  bothPass ++ initSeq ++ brFirst ++ upgradeLastFirst ++ [.c1_pass 8, .store 8] ++
+  bothPass ++ initSeq ++ brFirst ++ upgradeLastFirst ++ [.c1_pass 8, .store 8 true] ++
   initSeq ++ brFirst ++ [.c0_grow, .u1, .u2_last, .u3, .u4, .w1, .w2_more, .w4, .w5, .c1_pass 16]
 
 /-- what the witnesses look at: readers inside a transform, threads re-allocating / rebuilding, threads holding the writer role,
@@ -57,7 +57,7 @@ set_option maxRecDepth 100000 in
 theorem f9Trace_run : (run f9Trace (cold 2)).map obs = some [1, 1, 1, 2, 2, 0, 8] := by decide
 
 set_option maxRecDepth 100000 in
-theorem f9Trace_store_run : (run (f9Trace ++ [.store 4]) (cold 2)).map obs = some [1, 1, 1, 2, 2, 4, 0] := by decide
+theorem f9Trace_store_run : (run (f9Trace ++ [.store 4 true]) (cold 2)).map obs = some [1, 1, 1, 2, 2, 4, 0] := by decide
 
 set_option maxRecDepth 100000 in
 theorem twoWriters_run : (run twoWritersTrace (cold 2)).map obs = some [0, 2, 2, 2, 2, 0, 0] := by decide
@@ -70,7 +70,7 @@ theorem exists_of_run_obs {s0 : St} {ls : List Label} {o} (h : (run ls s0).map o
 
 /-! Warm-start traces (non-vacuity). -/
 /-- one thread grows the cache to 8 and is inside its transform as the writer -/
-def writerInTrace : List Label := [.call, .i0_warm] ++ brFirst ++ upgradeLastFirst ++ [.c1_pass 8, .store 8]
+def writerInTrace : List Label := [.call, .i0_warm] ++ brFirst ++ upgradeLastFirst ++ [.c1_pass 8, .store 8 true]
 
 /-- … finishes; then two threads read concurrently -/
 def twoReadersTrace : List Label :=
@@ -83,7 +83,7 @@ def downgradeTrace : List Label :=
    .u1, .u2_more, .u4, .u1, .u2_last, .u3, .u4,        -- both cease reading
    .w1, .w2_first, .w3, .w4, .w5,                       -- first becomes writer
    .w1, .w2_more, .w4,                                  -- second queues on w
-   .c1_pass 8, .store 8, .build 8, .y1, .y2, .y3_more, .y5,
+   .c1_pass 8, .store 8 true, .build 8, .y1, .y2, .y3_more, .y5,
    .w5, .c1_fail]
 
 set_option maxRecDepth 100000 in
